@@ -1072,6 +1072,26 @@ impl<'a> Sup<'a> {
                         }
                     }
                     waiters.sort();
+                    // which waiter a wake-up releases when there are more waiters than wake-ups is the kernel's
+                    // choice: FIFO by default, any other waiter at the cost of one deviation (a pseudo decision)
+                    if maxw == 1 && waiters.len() > 1 {
+                        let k = self.decisions.len();
+                        let enabled: Vec<usize> = waiters.iter().map(|w| w.1).collect();
+                        let default = enabled[0];
+                        let mut pick = default;
+                        for (di, dp) in &self.spec.devs {
+                            if *di == k {
+                                match enabled.iter().find(|&&j| self.th[j].path_s == *dp) {
+                                    Some(&j) => pick = j,
+                                    None => bail!("replay divergence at wake decision {}: thread {} is not waiting", k, dp),
+                                }
+                            }
+                        }
+                        self.decisions.push(Dec { enabled, default, chosen: pick });
+                        let pos = waiters.iter().position(|w| w.1 == pick).unwrap();
+                        let w = waiters.remove(pos);
+                        waiters.insert(0, w);
+                    }
                     let mut woken = 0i64;
                     for (_, j) in waiters {
                         if woken >= maxw {
